@@ -703,7 +703,10 @@ func findIndexEntry(entries []*IndexEntry, offset int64) *IndexEntry {
 			return entries[mid]
 		}
 		if entries[mid].Offset < offset {
-			if mid+1 <= hi && entries[mid+1].Offset > offset {
+			// mid+1 must be checked against the slice length, not the shrinking
+			// search bound hi: otherwise the floor entry is missed once hi has
+			// moved below mid+1 and the search falls through to entries[0].
+			if mid+1 < len(entries) && entries[mid+1].Offset > offset {
 				return entries[mid]
 			}
 			lo = mid + 1
